@@ -225,5 +225,5 @@ def run_one(tape: Any, cfg: Dict[str, Any], forbid: FrozenSet[str] = frozenset()
         res.scenario = {'args': [a.replace(sd, '<scratch>') for a in args], 'bound': [list(k) for k in bound_tcp],
                         'hashseed': os.environ.get('PYTHONHASHSEED')}
         if w.hung:
-            w.fail('hang', 'step-or-time-cap', 'run hit the step / virtual-time cap')
+            scen.hang_failure(w)
         return finish(res, w)
